@@ -221,6 +221,7 @@ type treeHarness struct {
 	p       *prng
 	bad     string
 	mapLeak string // an unclassified (untagged map) value that did not come out redacted
+	pubLost string // a public-classified value that was not preserved
 }
 
 func (h *treeHarness) leafOut(v string, m int) string {
@@ -303,7 +304,23 @@ func (h *treeHarness) show(t *tv, v reflect.Value) []string {
 		r := []string{"T", fmt.Sprint(len(t.items))}
 		for i, it := range t.items {
 			r = append(r, "E")
-			r = append(r, h.show(it.v, v.Field(i))...)
+			sub := h.show(it.v, v.Field(i))
+			// a value classified public is preserved, whatever the overrides say about the class
+			if it.has && (it.tag == "public" || strings.HasPrefix(it.tag, "public,")) && h.pubLost == "" {
+				switch it.v.kind {
+				case "s", "b":
+					if sub[0] != fmt.Sprintf("p%d", it.v.m) {
+						h.pubLost = fmt.Sprintf("field F%d tagged %q came out as %s", i, it.tag, sub[0])
+					}
+				case "S", "B":
+					for j, x := range sub[2:] {
+						if it.v.ms[j] >= 0 && x != fmt.Sprintf("p%d", it.v.ms[j]) {
+							h.pubLost = fmt.Sprintf("an element of field F%d tagged %q came out as %s", i, it.tag, x)
+						}
+					}
+				}
+			}
+			r = append(r, sub...)
 		}
 		return r
 	case "L":
@@ -566,7 +583,7 @@ func enctreeMain(args []string) {
 	for c := 0; c < *n; c++ {
 		st.Cases++
 		st.Ops++
-		h.bad, h.mapLeak = "", ""
+		h.bad, h.mapLeak, h.pubLost = "", "", ""
 		// payload: pointer to struct mostly; also struct by value, slices, maps, pointers to those, strings
 		var t *tv
 		switch p.intn(10) {
@@ -650,6 +667,9 @@ func enctreeMain(args []string) {
 			st.hit("tree:filtered")
 			if h.bad != "" {
 				oracle("C10 the forwarded payload does not have the input's shape (%s) || case: %s", h.bad, line)
+			}
+			if h.pubLost != "" {
+				oracle("C10 a public-classified value was not preserved: %s || case: %s", h.pubLost, line)
 			}
 			if h.mapLeak != "" {
 				oracle("C09 unclassified data must be redacted: %s || case: %s", h.mapLeak, line)
